@@ -1271,4 +1271,93 @@ theorem runCall_noresp {T n : Int} (hT : 0 < T) (evs : List Event) (H : Int) (ha
       refine hno o'.t o'.tag ?_
       rw [hret]; simp [terminalOutcome, hacc']
 
+/-! ### the routed stream as a script -/
+
+theorem obsFrom_getElem? {α : Type} (m : α → Bool) (fl : Nat → Bool) (i : Nat) (arr : List (Int × α)) (j : Nat) :
+    (obsFrom m fl i arr)[j]? = (arr[j]?).map (fun a => (⟨a.1, kindOf m a.2, i + j, fl (i + j)⟩ : Obs)) := by
+  induction arr generalizing i j with
+  | nil => simp [obsFrom]
+  | cons a arr ih =>
+    cases j with
+    | zero => simp [obsFrom]
+    | succ j =>
+      simp only [obsFrom, List.getElem?_cons_succ, ih]
+      have : i + 1 + j = i + (j + 1) := by omega
+      rw [this]
+
+theorem kindOf_eq_acc {α : Type} {m : α → Bool} {p : α} : kindOf m p = .acc ↔ m p = true := by
+  unfold kindOf; cases m p <;> simp
+
+/-- The script that injects a routed stream (in time order) with ANY sync flags:
+what every result the script-level model allows can be.  (1) A response is a
+packet of the stream the matcher accepts, at its arrival instant, and every
+accepted packet before it arrived exactly on a retransmission deadline.  (2) A
+result that is not a response: every accepted packet arrived exactly on a
+retransmission deadline, or at/after the budget. -/
+theorem runCall_stream {α : Type} {T n : Int} (hT : 0 < T) (m : α → Bool) (sy : Nat → Bool) (arr : List (Int × α))
+    (H : Int) (ho : Ordered arr) (r : Result) (hr : r ∈ runCall T n (scriptFrom m sy 0 arr) H) :
+    (∀ t i, r.ret = some (t, .resp i) → ∃ p, arr[i]? = some (t, p) ∧ m p = true ∧
+      ∀ j q, j < i → arr[j]? = some q → m q.2 = true → ∃ k : Nat, q.1 = T * (2 ^ (k + 1) - 1)) ∧
+    ((∀ t i, r.ret ≠ some (t, .resp i)) → ∀ a ∈ arr, m a.2 = true →
+      (∃ k : Nat, a.1 = T * (2 ^ (k + 1) - 1)) ∨ (0 ≤ n ∧ callBudget T n ≤ a.1)) := by
+  have harr := scriptFrom_arrivals m sy 0 arr
+  have hso := scriptObs_scriptFrom m sy arr ho
+  constructor
+  · intro t i hret
+    obtain ⟨pre, o, post, heq, hk, htag, ht, hpre⟩ := runCall_resp_first hT _ H harr r hr t i hret
+    rw [hso] at heq
+    have hget : ∀ j, (obsOf m quiescent arr)[j]? =
+        (arr[j]?).map (fun a => (⟨a.1, kindOf m a.2, 0 + j, quiescent (0 + j)⟩ : Obs)) :=
+      fun j => obsFrom_getElem? m quiescent 0 arr j
+    have ho' : (obsOf m quiescent arr)[pre.length]? = some o := by rw [heq]; simp
+    rw [hget] at ho'
+    cases ha : arr[pre.length]? with
+    | none => rw [ha] at ho'; cases ho'
+    | some a =>
+      rw [ha] at ho'
+      simp only [Option.map_some, Option.some.injEq] at ho'
+      subst ho'
+      simp only [Nat.zero_add] at htag
+      subst htag
+      obtain ⟨a1, a2⟩ := a
+      simp only at ht hk
+      subst ht
+      refine ⟨a2, ha, kindOf_eq_acc.1 hk, ?_⟩
+      intro j q hj hq hm
+      have hq' : (obsOf m quiescent arr)[j]? = some ⟨q.1, kindOf m q.2, 0 + j, quiescent (0 + j)⟩ := by
+        rw [hget, hq]; rfl
+      rw [heq, List.getElem?_append_left hj] at hq'
+      exact hpre _ (List.mem_of_getElem? hq') (kindOf_eq_acc.2 hm)
+  · intro hno a ha hm
+    obtain ⟨j, hj⟩ := List.getElem?_of_mem ha
+    have hmem : (⟨a.1, kindOf m a.2, 0 + j, quiescent (0 + j)⟩ : Obs) ∈ scriptObs (scriptFrom m sy 0 arr) := by
+      rw [hso]
+      apply List.mem_of_getElem? (i := j)
+      show (obsFrom m quiescent 0 arr)[j]? = _
+      rw [obsFrom_getElem?, hj]; rfl
+    exact runCall_noresp hT _ H harr r hr hno _ hmem (kindOf_eq_acc.2 hm)
+
+/-- every datagram applied at quiescence: exactly one result, the refined one -/
+theorem runCall_scriptOf {α : Type} {T n : Int} (hT : 0 < T) (m : α → Bool) (arr : List (Int × α)) (H : Int)
+    (ho : Ordered arr) : runCall T n (scriptOf m arr) H = [runObs T n (obsOf m quiescent arr) H] := by
+  have harr := scriptFrom_arrivals m quiescent 0 arr
+  refine runCall_singleton (scriptOf m arr) H harr _ (fun r hr => ?_)
+  rw [runCall_det hT _ H harr (fun g hg =>
+    Or.inl (groups_sync _ (scriptFrom_sync m quiescent 0 arr (fun _ => rfl)) g hg)) r hr,
+    scriptObs_scriptFrom m quiescent arr ho]
+
+/-- no arrival on a retransmission deadline: exactly one result whatever the sync flags -/
+theorem runCall_scriptFrom_no_coincidence {α : Type} {T n : Int} (hT : 0 < T) (m : α → Bool) (sy : Nat → Bool)
+    (arr : List (Int × α)) (H : Int) (ho : Ordered arr)
+    (hnd : ∀ a ∈ arr, ∀ k : Nat, a.1 ≠ T * (2 ^ (k + 1) - 1)) :
+    runCall T n (scriptFrom m sy 0 arr) H = [runObs T n (obsOf m quiescent arr) H] := by
+  have harr := scriptFrom_arrivals m sy 0 arr
+  have hso := scriptObs_scriptFrom m sy arr ho
+  refine runCall_singleton _ H harr _ (fun r hr => ?_)
+  rw [runCall_no_coincidence hT _ H harr ?_ r hr, hso]
+  intro o hoo k
+  rw [hso] at hoo
+  obtain ⟨a, ha, hta, _⟩ := mem_obsFrom m quiescent 0 arr o hoo
+  rw [hta]; exact hnd a ha k
+
 end Dhcp.Client.Refine
